@@ -350,6 +350,10 @@ def near_tie(cs, o):
     tol = cs.tol if cs.tol > 0 else 1e-8
     recs = o.get("records", [])
     for r in recs:
+        # the model's projected step uses cmax / cmin; the code uses std::fmax / std::fmin, which differ on NaN operands only (stated in
+        # PanocOcpLoop.v): a run that reaches a NaN gradient component is outside the model's domain and is judged by the oracles alone
+        if any(math.isnan(t) for t in V(r, "grad")):
+            return "nan-gradient-component"
         e = D(r, "eps")
         if math.isfinite(e) and abs(e - tol) <= 1e-9 * max(abs(e), tol):
             return "eps~tol"
